@@ -21,6 +21,7 @@ struct Opts {
     int shard = 0, nshards = 1;
     long dump_mod = 0; // dump every dump_mod-th case for the second oracle
     long max_cands = 100;
+    long only_until = -1; // prefix replay: stop after this case index
     double deadline_s = 0; // 0 = none
     bool asan_child = false;
     std::map<std::string, std::string> kv;
@@ -77,7 +78,9 @@ inline void candidate(
     const char* kind, const std::string& reg, const std::string& detail) {
     long n = ++g_sh->ncand_total;
     if (n <= g_opts.max_cands) {
-        fprintf(g_out, "CAND\t%s\t%s\t%s\n", kind, reg.c_str(), detail.c_str());
+        fprintf(
+            g_out, "CAND\t%s\t%s\t%s\t%ld\n", kind, reg.c_str(), detail.c_str(),
+            (long)g_sh->progress);
         fflush(g_out);
     }
 }
@@ -97,6 +100,10 @@ struct Gate {
         ++idx;
         if (stop)
             return false;
+        if (g_opts.only_until >= 0 && idx > g_opts.only_until) {
+            stop = true;
+            return false;
+        }
         if (idx % g_opts.nshards != g_opts.shard)
             return false;
         if (idx < start)
@@ -249,6 +256,8 @@ inline Opts parse_args(int argc, char** argv) {
             o.max_cands = atol(val().c_str());
         else if (a == "--deadline")
             o.deadline_s = atof(val().c_str());
+        else if (a == "--only-until")
+            o.only_until = atol(val().c_str());
         else {
             fprintf(stderr, "unknown arg %s\n", a.c_str());
             exit(2);
